@@ -112,6 +112,43 @@ def run_case(case, stats: Stats | None):
                                 {"inst": inst, "state": state, "calls": calls[:i + 1]})
             if stats is not None:
                 stats.classes["replayed-on-fresh-client"] += 1
+    # metamorphic, second form: a command means the same whether it is transmitted at once or waits in the socket's
+    # queue first.  The last (up to four) accepted non-timer calls are made again on a fresh client whose link has just
+    # gone down; all of them are pending together, and after the reconnection each frame on the new connection must be
+    # the frame the same call produced while connected (same console reports), in call order.
+    if case["calls"] != "grid":
+        burst = [f for f in frames if not f[1][0].startswith(("timer_", "quick_", "updates"))][-4:]
+        if len(burst) >= 2:
+            from pav import cmdref, refcodec, refproto
+            z = cmdrun.CmdRig(ID, inst, state)
+            try:
+                rig = z.rig
+                rig.net.script.append(("refuse", 0.0))
+                rig.net.current.peer_eof()
+                rig.loop.settle()
+                for i, c, fr in burst:
+                    r = rig.loop.call(cmdref.perform(rig, c))
+                    if r[0] != "ok":
+                        raise Violation(f"C04:raised-while-down:{c[0]}", f"{c}: accepted while connected, but with the link down the call "
+                                        f"returned {r!r}", {"inst": inst, "state": state, "calls": [b[1] for b in burst]})
+                rig.loop.advance(2.5)
+                tr = rig.net.current
+                if tr is None:
+                    raise Violation("C04:harness", "no reconnection after one refusal", {"inst": inst, "state": state, "calls": []})
+                pr = refproto.parse_stream(inst["gen"], tr.tx_bytes())
+                got = [(f.mtype, bytes(f.data)) for f in pr.frames
+                       if not str(refcodec.read_client_frame(inst["gen"], f.mtype, f.data)[0]).endswith("_req")]
+                want = [fr for _i, _c, fr in burst]
+                if pr.error or got != want:
+                    raise Violation("C04:queued-frame-differs",
+                                    f"calls {[b[1] for b in burst]} made while the link was down were transmitted after the reconnection as "
+                                    f"{[(hex(t), d.hex()) for t, d in got]}; made while connected (same console reports) they were "
+                                    f"{[(hex(t), d.hex()) for t, d in want]} (stream error: {pr.error})",
+                                    {"inst": inst, "state": state, "calls": [b[1] for b in burst]})
+            finally:
+                z.dispose()
+            if stats is not None:
+                stats.classes["burst-queued-while-down"] += 1
 
 
 def shards(tier: str):
@@ -129,7 +166,8 @@ def floors(tier: str):
     return {f"call:{c}": 100 for c in ("ac_power", "ac_mode", "ac_fan", "ac_temp", "zone_power", "zone_temp", "zone_damper")} | \
         {"call:quick_duration": 30, "call:timer_time": 30, "call:timer_clear": 30, "call:updates": 20,
                                                                                        "call-during-half-received-frame": 200,
-                                                                                       "replayed-on-fresh-client": 300}
+                                                                                       "replayed-on-fresh-client": 300,
+                                                                                       "burst-queued-while-down": 300}
 
 
 def run_shard(spec, seed: int, tier: str):
